@@ -202,18 +202,122 @@ pub fn check(c: &Case, st: &mut Stats) -> Check {
     }
 }
 
+// ---------------------------------------------------------------------------------------
+// keep-alive: the 401 announces "Connection: keep-alive"; further requests on the connection
+// are requests like any other
+
+#[derive(Clone, Debug, Serialize, Deserialize, PartialEq)]
+pub struct KeepAlive {
+    pub scn: Scenario,
+    pub sport: u16,
+    pub dport: u16,
+    /// complete valid requests, one per segment
+    pub reqs: Vec<HttpReq>,
+    /// then optionally one faulty request (what follows a malformed request is not judged)
+    pub last: Option<(HttpReq, Fault)>,
+}
+
+pub fn keepalive_strategy() -> impl Strategy<Value = KeepAlive> {
+    (scenario_quiet(Fam::Any), port(), port(), vec(http_req(), 1..=3), prop::option::weighted(0.7, (http_req(), fault()))).prop_map(|(scn, sport, dport, mut reqs, last)| {
+        for r in reqs.iter_mut() {
+            r.tail = Hex(vec![]);
+        }
+        KeepAlive { scn, sport, dport, reqs, last }
+    })
+}
+
+pub fn keepalive_check(c: &KeepAlive, st: &mut Stats) -> Check {
+    use crate::vf::session::*;
+    Sut::reset();
+    st.eval();
+    let sut = Sut::new(&c.scn.cfg);
+    let mut stream = Vec::new();
+    let mut lens = Vec::new();
+    let mut expect: Vec<bool> = Vec::new();
+    for r in &c.reqs {
+        let b = r.bytes();
+        lens.push(b.len());
+        stream.extend_from_slice(&b);
+        expect.push(true);
+    }
+    let mut fk = "none";
+    if let Some((r, f)) = &c.last {
+        if let Some(b) = faulty_bytes(r, f) {
+            if !b.is_empty() {
+                let positive = *f == Fault::None;
+                if !positive {
+                    let id = crate::vf::sig::ref_identify(&b, false);
+                    if id.protos.iter().any(|p| *p != crate::vf::sig::Proto::Http) {
+                        st.exclude("fault-completes-another-signature");
+                        return Ok(());
+                    }
+                    fk = "faulty";
+                } else {
+                    fk = "well-formed";
+                }
+                lens.push(b.len());
+                stream.extend_from_slice(&b);
+                expect.push(positive);
+            }
+        }
+    }
+    if lens.len() < 2 {
+        st.class("trivial:single-request");
+        return Ok(());
+    }
+    let flow = Flow { net: c.scn.net.clone(), sport: c.sport, dport: c.dport };
+    st.frames(1 + lens.len() as u64);
+    let replies = deliver(&sut, &flow, 808, &stream, &lens).map_err(Failure::new)?;
+    st.class(&format!("keep-alive:{}-requests:last-{}", lens.len(), fk));
+    st.nontrivial_hash(fnv(&stream) ^ 0x4b41);
+    let mut off = 0usize;
+    for (i, rp) in replies.iter().enumerate() {
+        let seg = &stream[off..off + lens[i]];
+        off += lens[i];
+        let show = || format!("{:?}", String::from_utf8_lossy(&seg[..seg.len().min(160)]));
+        match (rp, expect[i]) {
+            (SegReply::Data(a), true) => {
+                let r = parse_http_response(a).map_err(|e| Failure::new(format!("request #{} on the connection: response does not parse: {} ({:?})", i, e, String::from_utf8_lossy(&a[..a.len().min(200)]))))?;
+                vensure!(r.status_line.starts_with("HTTP/1.1 401"), "request #{} on the connection: status line {:?}", i, r.status_line);
+                vensure!(r.header("WWW-Authenticate").map(|v| !v.is_empty()).unwrap_or(false), "request #{}: no WWW-Authenticate challenge", i);
+                let cl: usize = r.header("Content-Length").and_then(|v| v.parse().ok()).unwrap_or(usize::MAX);
+                vensure!(cl == r.body.len(), "request #{}: Content-Length says {} but {} body bytes were sent", i, cl, r.body.len());
+            }
+            (SegReply::Data(a), false) => {
+                if a.starts_with(b"HTTP/") {
+                    vfail!("request #{} on a keep-alive connection is faulty ({:?}) but was answered: {} -> {:?}", i, c.last.as_ref().map(|l| &l.1), show(), String::from_utf8_lossy(&a[..a.len().min(60)]));
+                }
+            }
+            (SegReply::Ack, true) | (SegReply::Silence, true) => vfail!("complete HTTP request #{} on a keep-alive connection not answered: {}", i, show()),
+            (SegReply::Other(o), _) => {
+                if o.starts_with("panic") {
+                    return Err(Failure::keyed("panic", o.clone()));
+                }
+            }
+            _ => {}
+        }
+    }
+    Ok(())
+}
+
 impl Prop for C13 {
     fn id(&self) -> &'static str {
         "C13"
     }
     fn rule(&self) -> &'static str {
-        "cases = request grammar (9 methods; target '/' + bytes other than SP/CR/LF incl. non-UTF-8 and NUL, 0..60 bytes; HTTP/d+.d+; 0..5 'name:value' header lines with arbitrary value bytes; CRLF or bare LF chosen per line; optional trailing bytes) x transport (UDP datagram / one segment on a handshaken TCP flow) x both IP versions x random ports x log level Off..Trace (the 401 path logs verb and target at Warn), and single-fault corruptions: unknown method (not completing any signature), byte of 'HTTP/' replaced, non-digit version, missing version, header line without colon, terminating empty line removed, truncation at every position before the end. Oracle: independent LF-tolerant response parser: status line HTTP/1.1 401, WWW-Authenticate present, Content-Length = number of body bytes; faulty requests get no application reply (UDP silence, TCP bare ACK). Non-trivial = every case (decides one request); distinct by hash of (bytes, transport)."
+        "cases = request grammar (9 methods; target '/' + bytes other than SP/CR/LF incl. non-UTF-8 and NUL, 0..60 bytes; HTTP/d+.d+; 0..5 'name:value' header lines with arbitrary value bytes; CRLF or bare LF chosen per line; optional trailing bytes) x transport (UDP datagram / one segment on a handshaken TCP flow) x both IP versions x random ports x log level Off..Trace (the 401 path logs verb and target at Warn), and single-fault corruptions: unknown method (not completing any signature), byte of 'HTTP/' replaced, non-digit version, missing version, header line without colon, terminating empty line removed, truncation at every position before the end. Keep-alive: 1..3 complete requests, one per segment of ONE connection, optionally followed by one more request that is well-formed or carries one of the faults: every complete request is answered as above, the faulty one is not (nothing is judged after a faulty request). Oracle: independent LF-tolerant response parser: status line HTTP/1.1 401, WWW-Authenticate present, Content-Length = number of body bytes; faulty requests get no application reply (UDP silence, TCP bare ACK). Non-trivial = every case (decides one request); distinct by hash of (bytes, transport)."
     }
     fn run(&self, ctx: &mut RunCtx) {
         let n = ctx.share(ctx.tier.n(600_000, 8_000_000));
         ctx.run_generated("http", n, case_strategy(), check);
+        let m = ctx.share(ctx.tier.n(200_000, 3_000_000));
+        ctx.run_generated("keep-alive", m, keepalive_strategy(), keepalive_check);
     }
-    fn replay(&self, _stream: &str, case: &Value, st: &mut Stats) -> Check {
-        check(&serde_json::from_value(case.clone()).map_err(|e| Failure::new(format!("bad case: {}", e)))?, st)
+    fn replay(&self, stream: &str, case: &Value, st: &mut Stats) -> Check {
+        let bad = |e: serde_json::Error| Failure::new(format!("bad case: {}", e));
+        match stream {
+            "keep-alive" => keepalive_check(&serde_json::from_value(case.clone()).map_err(bad)?, st),
+            _ => check(&serde_json::from_value(case.clone()).map_err(bad)?, st),
+        }
     }
 }
